@@ -166,6 +166,10 @@ SPEC = {
         "transaction hashes are collision free and types.Sender is a function of the transaction (fields t_id, t_from of the model)",
         "nonces, gas and prices stay below 2^64 (uint64 wrap-around is not modelled; N is unbounded)",
         "the price heap is represented by its meaning (price order over the lookup); its stale counter is checked only by the harness oracle",
+        "the nonce index of txSortedMap is represented by its meaning (the items in nonce order), not as the container/heap array; that the "
+        "array is a min-heap over exactly the item keys is checked by the oracle after every critical section (hook exposes the array), and a "
+        "directed generator (gapped transactions submitted in shuffled nonce order, a head that drops exactly one of them, a head that raises the "
+        "account nonce) exercises the root-only reads of Forward/Ready",
         "journal, event feed, metrics, NewTxPool's config sanitising and the wall clock (Lifetime test) are outside the model",
         "every access to the pool's shared fields happens inside a pool.mu critical section (checked on the regenerated method table) "
         "- under it concurrent executions are interleavings of the model's ops",
